@@ -3,6 +3,7 @@
  * Model: units/veru_model.h (abstract key ranks, ghost-index file lists).
  */
 #include "units/veru_model.h"
+static void push_hook(const void *x) { (void)x; }
 static void push_other_hook(void) { }
 
 /* ======================================================================
